@@ -361,10 +361,20 @@ Section Semantics.
 
   Record ccall := mkCall { c_obj : nat; c_meth : meth; c_args : list arg; c_bind : nat }.
 
+  (* the objects a composite opened for itself are not visible to the client afterwards:
+     only what existed before and the object the composite returns stay in the table *)
+  Definition prune (old : objs) (r : wres) (new : objs) : objs :=
+    filter (fun p => (match a_obj (r_ans r) with Some b => Nat.eqb (fst p) b | None => false end)
+                     || amem Nat.eqb (fst p) old) new.
+
+  Definition comp_cb (self : nat) : comp -> world -> list arg -> nat -> wres * world :=
+    fun cp w a bind =>
+      let rw := run_prog (comp_prog cp a) w self bind [] in
+      (fst rw, mkWorld (w_base (snd rw)) (prune (w_objs w) (fst rw) (w_objs (snd rw))) (w_hist (snd rw))).
+
   (* the step of the wrapped world *)
   Definition wstep (w : world) (c : ccall) : wres * world :=
-    call_obj (fun cp w' a bind => run_prog (comp_prog cp a) w' (c_obj c) bind []) w
-             (c_obj c) (c_meth c) (c_args c) (c_bind c).
+    call_obj (comp_cb (c_obj c)) w (c_obj c) (c_meth c) (c_args c) (c_bind c).
 
   Fixpoint wrun (w : world) (cs : list ccall) : list wres * world :=
     match cs with
